@@ -239,7 +239,8 @@ def direction_closure_section(ctx):
     from harness import dsgen
     rng = ctx.subrng("direction-closure")
     GL = [("n", 0x6E), ("o", 0x6F), ("n.alt", None), ("n.sc", None), ("behDotless-ar", 0x66E), ("behDotless-ar.fina", None),
-          ("behDotless-ar.alt", None), ("orphan", None), ("n.alt.sc", None), ("n.alt2", None), ("hyphen", 0x2D), ("n_hyphen", None)]
+          ("behDotless-ar.alt", None), ("orphan", None), ("n.alt.sc", None), ("n.alt2", None), ("hyphen", 0x2D), ("n_hyphen", None), ("n.alt3", None)]
+    # (n.alt3: the substitute of n in a SECOND rule on the same glyph -- both substitutes are left-to-right)
     # (n.alt.sc is reached from n only through a designspace rule FOLLOWED by a GSUB rule, n.alt2 through two rules)
     # (n_hyphen: a ligature of a left-to-right letter and a NEUTRAL glyph -- reachable only when the neutral glyphs take part)
     GSUB = ("feature smcp {\n    sub n by n.sc;\n    sub n.alt by n.alt.sc;\n} smcp;\nfeature liga {\n    sub n hyphen by n_hyphen;\n} liga;\n"
@@ -256,7 +257,7 @@ def direction_closure_section(ctx):
         rules = mode != "static"
         # closure of the cmap's left-to-right glyphs under the GSUB rules above and the designspace rules below
         edges = ([(("n",), "n.sc"), (("n.alt",), "n.alt.sc"), (("n", "hyphen"), "n_hyphen")] if with_gsub else []) + \
-                ([(("n",), "n.alt"), (("n.alt",), "n.alt2")] if rules else [])
+                ([(("n",), "n.alt"), (("n.alt",), "n.alt2"), (("n",), "n.alt3")] if rules else [])
         ltr, neutral = {"n", "o"}, {"hyphen"}
         while True:
             more = {b for a, b in edges if all(x in ltr | neutral for x in a)} - ltr - neutral
@@ -264,7 +265,7 @@ def direction_closure_section(ctx):
                 break
             ltr |= more
         case = {"font": jsonable(desc), "lib": lib, "mode": mode, "gsub_features": with_gsub,
-                "designspace_rules": [["n", "n.alt"], ["behDotless-ar", "behDotless-ar.alt"], ["n.alt", "n.alt2"]] if rules else [],
+                "designspace_rules": [["n", "n.alt"], ["behDotless-ar", "behDotless-ar.alt"], ["n.alt", "n.alt2"], ["n", "n.alt3"]] if rules else [],
                 "expected_ltr_glyphs": sorted(ltr)}
         ctx.count(); ctx.klass("direction closure: %s/%s" % (mode, "gsub" if with_gsub else "no-gsub")); ctx.nontriv(("dc", i, ctx.scale))
         try:
@@ -280,6 +281,10 @@ def direction_closure_section(ctx):
                 r = RuleDescriptor(); r.name = "alt2"
                 r.conditionSets = [[{"name": ds.axes[0].name, "minimum": 700, "maximum": ds.axes[0].maximum}]]
                 r.subs = [("n.alt", "n.alt2")]
+                ds.rules.append(r)
+                r = RuleDescriptor(); r.name = "alt3"
+                r.conditionSets = [[{"name": ds.axes[0].name, "minimum": ds.axes[0].minimum, "maximum": 300}]]
+                r.subs = [("n", "n.alt3")]
                 ds.rules.append(r)
                 ds.rulesProcessingLast = i % 4 == 1         # rvrn (rules first: a rule's substitute meets the GSUB rules) or rclt
                 if mode == "interpolatable-ttf-from-ds":
